@@ -486,7 +486,7 @@ func (w *gatedWorker) ID() string { return fmt.Sprintf("w%d", w.id) }
 
 func (w *gatedWorker) Work(ctx context.Context, unit stage.Unit, startBlock uint64, moduleNames []string, upstream *response.Stream) loop.Cmd {
 	ctx = reqctx.WithTier2RequestParameters(ctx, reqctx.Tier2RequestParameters{
-		BlockType: blockType, StateBundleSize: w.cfg.Seg, StateStoreURL: w.env.dir, StateStoreDefaultTag: "tag", MeteringConfig: "null://"})
+		BlockType: blockType, StateBundleSize: w.cfg.Seg, StateStoreURL: w.env.dir, StateStoreDefaultTag: "tag", MeteringConfig: "null://", MergedBlockStoreURL: "/tmp/verif-no-merged-blocks"})
 	request := work.NewRequest(ctx, reqctx.Details(ctx), unit.Stage, startBlock)
 	return func() loop.Msg {
 		svc := service.TestNewServiceTier2(false, func(ctx context.Context, h bstream.Handler, start int64, stop uint64, _ string, _ bool, _ bool, _ *zap.Logger, _ ...bsstream.Option) (service.Streamable, error) {
@@ -515,7 +515,13 @@ func runTier1(env *sysEnv, cfg runCfg, cursor string, traceSched bool) (obs runO
 	}
 	wid := 0
 	rc := config.RuntimeConfig{SegmentSize: cfg.Seg, DefaultParallelSubrequests: uint64(cfg.Workers), BaseObjectStore: base, DefaultCacheTag: "tag", MaxJobsAhead: 10,
-		WorkerFactory: func(*zap.Logger) work.Worker { wid++; return &gatedWorker{env: env, cfg: cfg, gate: gate, id: wid} }}
+		WorkerFactory: func(lg *zap.Logger) work.Worker {
+			if remoteFactory != nil {
+				return remoteFactory(lg)
+			}
+			wid++
+			return &gatedWorker{env: env, cfg: cfg, gate: gate, id: wid}
+		}}
 	lib := uint64(0)
 	if cfg.LibOK {
 		lib = cfg.Lib
@@ -576,7 +582,7 @@ func runTier1(env *sysEnv, cfg runCfg, cursor string, traceSched bool) (obs runO
 		scheduler.VerifTrace = nil
 	}
 	ctx := context.Background()
-	ctx = reqctx.WithTier2RequestParameters(ctx, reqctx.Tier2RequestParameters{BlockType: blockType, StateBundleSize: cfg.Seg, StateStoreURL: env.dir, StateStoreDefaultTag: "tag", MeteringConfig: "null://"})
+	ctx = reqctx.WithTier2RequestParameters(ctx, reqctx.Tier2RequestParameters{BlockType: blockType, StateBundleSize: cfg.Seg, StateStoreURL: env.dir, StateStoreDefaultTag: "tag", MeteringConfig: "null://", MergedBlockStoreURL: "/tmp/verif-no-merged-blocks"})
 	ctx, cancel := context.WithTimeout(ctx, 20*time.Second)
 	obs.Panic = guard(func() { err = svc.TestBlocks(ctx, false, req, collect) })
 	cancel()
@@ -664,6 +670,10 @@ func runSystem(a *args) error {
 	}
 	want := a.extra // "" = all kinds of scenarios; or: strategies | subsets | resume
 	for i := 0; i < n; i++ {
+		if want == "faults" {
+			runFaults(a, r, root, i)
+			continue
+		}
 		prog := randProg(r)
 		env := newSysEnv(filepath.Join(root, fmt.Sprintf("s%d", i)), prog)
 		os.MkdirAll(env.dir, 0755)
@@ -848,7 +858,7 @@ func emitRun(a *args, env *sysEnv, cfg runCfg, cursor string, traceSched bool) r
 			nd++
 		}
 	}
-	a.emitNT(map[string]any{"ev": "run", "cfg": cfg, "obs": obs, "filesBefore": before}, nd > 1)
+	a.emitNT(map[string]any{"ev": "run", "cfg": cfg, "obs": obs, "filesBefore": before, "failAt": -1}, nd > 1)
 	return obs
 }
 
@@ -1096,7 +1106,7 @@ func runForks(a *args, r *rand.Rand, env *sysEnv, seg uint64) {
 	schedMu.Lock()
 	orchestrator.VerifOnScheduler = func(s *scheduler.Scheduler) { s.WorkerPool.VerifSkipRampup() }
 	scheduler.VerifTrace = nil
-	ctx := reqctx.WithTier2RequestParameters(context.Background(), reqctx.Tier2RequestParameters{BlockType: blockType, StateBundleSize: cfg.Seg, StateStoreURL: env.dir, StateStoreDefaultTag: "tag", MeteringConfig: "null://"})
+	ctx := reqctx.WithTier2RequestParameters(context.Background(), reqctx.Tier2RequestParameters{BlockType: blockType, StateBundleSize: cfg.Seg, StateStoreURL: env.dir, StateStoreDefaultTag: "tag", MeteringConfig: "null://", MergedBlockStoreURL: "/tmp/verif-no-merged-blocks"})
 	ctx, cancel := context.WithTimeout(ctx, 20*time.Second)
 	obs.Panic = guard(func() { err = svc.TestBlocks(ctx, false, req, collect) })
 	cancel()
